@@ -218,7 +218,8 @@ Inductive kexmode := KRsa | KDhe.           (* TLS <= 1.2 client only: RSA key t
 Record pcfg := { p_ver : version; p_role : vrole; p_kex : kexmode; p_cb : cbmode;
                  p_offered : list nat;      (* signature algorithms this side listed (signature_algorithms / CertificateRequest) *)
                  p_cr : nat; p_sr : nat;    (* this handshake's randoms *)
-                 p_fix_ske_alg : bool }.    (* C04-5: tlsVerify checks the algorithm against the offered list *)
+                 p_fix_ske_alg : bool;      (* C04-5: tlsVerify checks the algorithm against the offered list *)
+                 p_dtls : bool }.           (* DTLS 1.0 / 1.2: same handshake parsers as TLS 1.1 / 1.2 behind a datagram layer *)
 
 Inductive msg :=
 | MClientHello (hit : option bool)               (* server side: what the lookup of the offered resumption material (session id in the cache,
@@ -263,7 +264,15 @@ Section Machine.
   Definition adv (s : pst) (m : msg) (p : phase) : pst := {| ph := p; leaf := leaf s; anon := anon s; tr := tr s ++ [mid m]; pops := pops s; resumed := resumed s |}.
   Definition memn (x : nat) (l : list nat) : bool := existsb (Nat.eqb x) l.
 
+  (* DTLS: MFinished stands for ChangeCipherSpec + Finished.  A ChangeCipherSpec that arrives while another handshake message is
+     expected is dropped as out of order (sslDecode.c `if (ssl->hsState != SSL_HS_FINISHED) ... goto decodeMore`) and the Finished
+     behind it is a record of an epoch whose keys are not active: the datagram layer drops both, the state does not move. *)
+  Definition dtls_ignored (c : pcfg) (s : pst) (m : msg) : bool :=
+    p_dtls c && match m with MFinished _ => true | _ => false end &&
+    match ph s with PWaitFin | PDone | PDead _ => false | _ => true end.
+
   Definition step (c : pcfg) (s : pst) (m : msg) : pst :=
+    if dtls_ignored c s m then s else
     match ph s, m with
     | PDone, _ => s
     | PDead _, _ => s
